@@ -37,6 +37,8 @@ def run(ctx):
     ctx.step(unlink_first, ctx, "C05.unlink-first", False)
     ctx.step(no_early_free, ctx)
     ctx.step(reclaim, ctx)
+    from . import c12
+    ctx.step(c12.reentrancy_rule, ctx, "C05.reentrancy")
     ctx.step(c13.uaf, ctx, "C05.uaf", [f for f in ctx.fb.functions() if f.file.endswith("/rcu_list.hpp")], floor=20,
              kinds=("erased", "deleted", "deallocated"))
     ctx.step(who, ctx)
@@ -232,8 +234,7 @@ def unlink_first(ctx, rid="C05.unlink-first", strict_values=True, all_or_nothing
         ctx.ob(rid, seen > 0, f.where, "erase has a path that logs the node", "", fn=f.label, inst=f.qname)
 
 
-def reclaim(ctx):
-    rid = "C05.reclaim"
+def reclaim(ctx, rid="C05.reclaim"):
     ctx.rule(rid, "unlock: scan starts after the own record; reclaim only on paths that saw no owned record, from the "
              "same cursor; own record never freed; owner.store(nullptr) is the last access through the own record", floor=10)
     fs = list(ctx.fb.functions(rec=GUARD, name="unlock"))
